@@ -453,7 +453,8 @@ def rand_emacs_op(rng, n):
     if k < 11:
         return [a, "bk"]
     if k < 13:
-        return [a if rng.random() < 0.3 else "N", "y"]
+        # (yank repeats the text `arg` times: keep the argument small; >= 10^6 counts as 1)
+        return [rng.choice(["-", -2, 0, 2, 3, 1000000]) if rng.random() < 0.3 else "N", "y"]
     if k < 15:
         return ["N", "yp"]
     if k < 16:
@@ -543,7 +544,7 @@ def vi_single_seqs(n, quick=False):
     for ty in "clb":
         for a in range(n + 1):
             for b in range(n + 1):
-                if quick and a > b and (a + b) % 2:
+                if quick and a > b and ((a + b) % 2 or n == 3):
                     continue
                 seqs.append([["N", "vis", ty, a, b, "x", None], ["N", "P"]])
                 seqs.append([["N", "vis", ty, a, b, "d", None], ["N", "P"]])
